@@ -571,4 +571,41 @@ theorem hash_in_two_rounds_counterexample :
     getC (1, 100) (final empty [.submit 1 1 [exSnap 1 5 [1]] true, .submit 1 2 [exSnap 1 5 [1]] true]).lead
       = 2 := by decide
 
+/-! ## the read-back path (`AggregateMintWork`: records → reader → `WriteRoundWork`) -/
+
+theorem mem_insertRec (k : RecKey) (v : Hash × List Hash) (l : List (RecKey × (Hash × List Hash))) :
+    (k, v) ∈ insertRec k v l := by
+  induction l with
+  | nil => simp [insertRec]
+  | cons x xs ih =>
+    simp only [insertRec]
+    split
+    · simp
+    · split
+      · simp
+      · exact List.mem_cons_of_mem _ ih
+
+/-- **reader_identity**: a work record written for `(node, round)` is read back with its own
+    hash, timestamp and signer list -/
+theorem reader_identity (x : SR) (node : Hash) (round ts : Nat) (h : Hash) (sg : List Hash) :
+    ({ hash := h, ts := ts, signers := sg } : Snap) ∈ readWorks (writeWork x node round ts h sg) node round := by
+  simp only [readWorks, writeWork, List.mem_map, List.mem_filter]
+  exact ⟨((node, round, ts), (h, sg)), ⟨mem_insertRec _ _ _, by simp⟩, rfl⟩
+
+/-- **read_back_is_submit**: aggregating a round is `WriteRoundWork` applied to what the reader
+    returns, so every theorem above applies to the aggregated round with the records as written -/
+theorem read_back_is_submit (x : SR) (node : Hash) (round : Nat) (credit : Bool) :
+    (submitRead x node round credit).map (·.s) =
+      writeRoundWork x.s node round (readWorks x node round) credit := by
+  unfold submitRead
+  cases writeRoundWork x.s node round (readWorks x node round) credit <;> simp
+
+/-- snapshots of one round signed by different quorums: each signer is credited for the snapshots
+    it signed -/
+example :
+    let x := writeWork (writeWork (writeWork emptySR 1 1 (100 * dayLen + 1) 11 [1, 2, 3]) 1 1
+      (100 * dayLen + 2) 12 [1, 4]) 1 1 (100 * dayLen + 3) 13 [3, 1]
+    (submitRead x 1 1 true).map (fun y => (getC (1, 100) y.s.lead, getC (2, 100) y.s.sign,
+      getC (3, 100) y.s.sign, getC (4, 100) y.s.sign)) = some (3, 1, 2, 1) := by decide
+
 end Mixin.C26
